@@ -90,7 +90,7 @@ cfg["C06"] = {
 cfg["C07"] = {
     "title": "Reported deploy capacity equals what an allocation accepts", "design_ref": "DESIGN.md §4 C07",
     "runs": [
-        {"dir": CPUMEM, "quick": P("VerifAlloc", "c=2,numa=0,b=1,r=1000", "c=2,numa=0,b=0,r=500", "c=2,numa=1,b=0,r=500", "c=2,numa=0,b=0,r=3000", "c=2,numa=0,b=0,r=500,ml=1") + P("VerifTotals", "nodes=2", "nodes=2,b=1"),
+        {"dir": CPUMEM, "quick": P("VerifAlloc", "c=2,numa=0,b=1,r=1000", "c=2,numa=0,b=0,r=500", "c=2,numa=1,b=0,r=500", "c=2,numa=0,b=0,r=3000", "c=2,numa=0,b=0,r=500,ml=1", "c=2,numa=0,b=0,r=1000,grid=1") + P("VerifTotals", "nodes=2", "nodes=2,b=1"),
          "thorough": P("VerifAlloc", "c=2,numa=0,b=1,r=1000", "c=2,numa=0,b=0,r=500", "c=2,numa=1,b=0,r=500", "c=2,numa=0,b=0,r=3000", "c=2,numa=0,b=0,r=500,ml=1", "c=2,numa=1,b=0,r=500,ml=1", "c=2,numa=0,b=1,r=500,k=2", "c=2,numa=1,b=1,r=1000,k=2", "c=2,numa=0,b=1,r=300,ms=1")
                      + P("VerifTotals", "nodes=2", "nodes=2,b=1", "nodes=3", "nodes=3,b=1"), "samples": 2},
     ],
@@ -164,7 +164,7 @@ cfg["C21"] = {
     "assumptions": [cal_stubs],
 }
 
-ops_q = P("VerifReallocOp", "fault=8") + P("VerifRemoveOp", "fault=14", "fault=20,nodes=2,sched=lazy") + P("VerifDissociateOp", "fault=12", "fault=20,nodes=2,sched=lazy")
+ops_q = P("VerifReallocOp", "fault=8") + P("VerifRemoveOp", "fault=14", "fault=20,nodes=2,sched=lazy", "fault=14,cancel=1") + P("VerifDissociateOp", "fault=12", "fault=20,nodes=2,sched=lazy")
 create_op = P("VerifCreateOp", "fault=24,count=2", "fault=24,count=2,sched=lazy") + P("VerifReplaceOp", "fault=16", "fault=16,sched=lazy") + P("VerifReplaceTwo", "fault=30", "fault=30,sched=lazy")
 sched_t = P("VerifRemoveOp", "fault=20,nodes=2,sched=lazy,choices=4", "fault=20,nodes=2,sched=eager,choices=4") + P("VerifDissociateOp", "fault=20,nodes=2,sched=lazy,choices=4") + P("VerifCreateOp", "fault=24,count=2,sched=lazy,choices=2")
 sched_text = ("Goroutines and ants pool tasks are scheduled cooperatively (a goroutine gives up control only where it blocks - channel receive, select, WaitGroup.Wait, Mutex.Lock - where it spawns, and where it ends) under TWO fixed policies: eager (a spawned goroutine runs at once; harness arguments without sched=) and lazy (the spawning side runs on until it blocks, then the oldest runnable goroutine; sched=lazy); "
@@ -226,9 +226,9 @@ cfg["C29"] = {
     "outside": "pipes, per-target goroutines, engine failures, completion and the byte-identity of what the engine writes (I/O and concurrency in rpc.go / sendlarge.go); the empty file yields zero chunks, whether the receiving side then creates the file is not decided here",
     "assumptions": [common_stubs + "; abstract slices support len, cap and bounds-checked re-slicing only (the chunker never reads bytes)"],
 }
-cfg["C29"]["runs"].append({"dir": CAL, "inline_go": True, "quick": P("VerifSendLarge", "chunks=2,targets=2", "chunks=12,targets=1", "chunks=13,targets=2"), "thorough": P("VerifSendLarge", "chunks=2,targets=2", "chunks=12,targets=1", "chunks=13,targets=2", "chunks=13,targets=2,sched=lazy", "chunks=3,targets=2,choices=3", "chunks=24,targets=2"), "samples": 1})
+cfg["C29"]["runs"].append({"dir": CAL, "inline_go": True, "quick": P("VerifSendLarge", "chunks=2,targets=2", "chunks=12,targets=1", "chunks=13,targets=2", "chunks=24,targets=2", "chunks=30,targets=1"), "thorough": P("VerifSendLarge", "chunks=2,targets=2", "chunks=12,targets=1", "chunks=13,targets=2", "chunks=13,targets=2,sched=lazy", "chunks=3,targets=2,choices=3", "chunks=24,targets=2"), "samples": 1})
 cfg["C29"]["title"] = "File transfers deliver identical content and always finish"
-cfg["C29"]["bounds"] += ". Cluster side (Calcium.SendLargeFile with its per-target senders, io.Pipe, copy goroutines and wait group, under the cooperative scheduler with exact channel semantics): one file of 2-24 chunks to 1-2 targets; every target's engine symbolically accepts (reads to the end), rejects before reading, or aborts after the first read; the second target may not exist; owner and mode symbolic. Every accepting target must hold byte-identical content with the requested owner, mode, size and path, there is exactly one result per target, and the call finishes (a block is a hang violation, replayed natively under the 20 s cap)"
+cfg["C29"]["bounds"] += ". Cluster side (Calcium.SendLargeFile with its per-target senders, io.Pipe, copy goroutines and wait group, under the cooperative scheduler with exact channel semantics): one file of 2-30 chunks to 1-2 targets; every target's engine symbolically accepts (reads to the end), rejects before reading, or aborts after the first read; the second target may not exist; owner and mode symbolic. Every accepting target must hold byte-identical content with the requested owner, mode, size and path, there is exactly one result per target, and the call finishes (a block is a hang violation, replayed natively under the 20 s cap)"
 cfg["C29"]["outside"] = "the gRPC layer on top (rpc.go SendLargeFile: stream handling), several files in one call, more than two targets; what the engine itself writes (the Docker API); the empty file yields zero chunks, whether the receiving side then creates the file is not decided here"
 cfg["C29"]["assumptions"] = cfg["C29"]["assumptions"] + ledger_assume
 
